@@ -52,7 +52,7 @@ static std::pair<std::string, std::string> run_scn(const Scn &s) {
     std::vector<std::string> qch = vdrv::cut_at(rq, s.qcuts), sch = vdrv::cut_at(rs, s.scuts);
     size_t qi = 0, si = 0, qoff = 0, soff = 0; std::string qpend, spend; // pend: unconsumed remainder to re-offer first
     bool tunnel_seen = false; size_t ntx_at_tunnel = 0; bool response_offered = false;
-    std::string err, detail, req_error_state;
+    std::string err, detail, req_error_state; bool req_dead = false, res_dead = false;
     auto fail = [&](const std::string &sig, const std::string &d) { if (err.empty()) { err = sig; detail = d; } };
     size_t events_before;
     // one request call with the next chunk (or only the pending remainder); returns false when nothing was offered
@@ -64,6 +64,8 @@ static std::pair<std::string, std::string> run_scn(const Scn &s) {
         const vdrv::Call &c = ss.req(chunk);
         size_t cbs = 0; for (size_t k = events_before; k < ss.result().events.size(); k++) if (ss.result().events[k].hook != vdrv::H_LOG) cbs++;
         qpend.clear();
+        if (c.rc == HTP_STREAM_ERROR && req_error_state.empty()) req_error_state = ss.connp()->in_state == htp_connp_REQ_CONNECT_PROBE_DATA ? "REQ_CONNECT_PROBE_DATA" : c.in_state; // (htp_connp_in_state_as_string does not know the probe state)
+        if (c.rc == HTP_STREAM_ERROR || c.rc == HTP_STREAM_STOP) { if (!tunnel_seen) req_dead = true; if (req_dead) return true; } // a direction that failed before tunnel mode keeps reporting that (sticky, C09)
         if (tunnel_seen) { if (c.rc != HTP_STREAM_TUNNEL) fail("tunnel_not_sticky:request", "request call returned " + std::to_string(c.rc) + " after tunnel mode was entered"); if (cbs) fail("callbacks_in_tunnel_mode:request", std::to_string(cbs) + " callbacks during a request call in tunnel mode"); if (c.ntx != ntx_at_tunnel) fail("transactions_created_in_tunnel_mode", "transaction count changed in tunnel mode"); return true; }
         if (c.rc == HTP_STREAM_TUNNEL) { tunnel_seen = true; ntx_at_tunnel = c.ntx; return true; }
         if (c.rc == HTP_STREAM_DATA_OTHER) qpend = chunk.substr(std::min(c.consumed, chunk.size()));
@@ -91,6 +93,7 @@ static std::pair<std::string, std::string> run_scn(const Scn &s) {
         const vdrv::Call &c = ss.res(chunk);
         size_t cbs = 0; for (size_t k = events_before; k < ss.result().events.size(); k++) if (ss.result().events[k].hook != vdrv::H_LOG) cbs++;
         spend.clear();
+        if (c.rc == HTP_STREAM_ERROR || c.rc == HTP_STREAM_STOP) { if (!tunnel_seen) res_dead = true; if (res_dead) return true; }
         if (tunnel_seen) { if (c.rc != HTP_STREAM_TUNNEL) fail("tunnel_not_sticky:response", "response call returned " + std::to_string(c.rc) + " after tunnel mode was entered"); if (cbs) fail("callbacks_in_tunnel_mode:response", std::to_string(cbs) + " callbacks during a response call in tunnel mode"); if (c.ntx != ntx_at_tunnel) fail("transactions_created_in_tunnel_mode", "transaction count changed in tunnel mode"); return true; }
         if (c.rc == HTP_STREAM_TUNNEL) { tunnel_seen = true; ntx_at_tunnel = c.ntx; return true; }
         if (c.rc == HTP_STREAM_DATA_OTHER) spend = chunk.substr(std::min(c.consumed, chunk.size()));
@@ -192,11 +195,13 @@ static Scn gen_scn() {
     // (only when a tunnel is expected; otherwise a chunk may carry the end of the CONNECT response together with the start of the next one)
     if (s.expect_tunnel || rcx::coin()) { size_t e = s.pre_res.size() + s.res_head.size(); if (e < rs.size() && std::find(s.scuts.begin(), s.scuts.end(), e) == s.scuts.end()) { s.scuts.push_back(e); std::sort(s.scuts.begin(), s.scuts.end()); } }
     s.early_req_calls = (s.kind == 0 && !s.pay.empty()) ? rcx::range(0, 2) : 0;
+    // Upgrade: the client sends its non-HTTP payload only after it has seen the 101 (unlike CONNECT, the parser cannot hold the request side back)
+    if (s.kind == 1 && !s.pay.empty() && s.payload != 0) { if (std::find(s.qcuts.begin(), s.qcuts.end(), he) == s.qcuts.end()) { s.qcuts.push_back(he); std::sort(s.qcuts.begin(), s.qcuts.end()); } }
     return s;
 }
 
 static void campaign() {
-    int cases = A.thorough() ? 300000 : 30000;
+    int cases = A.thorough() ? 400000 : 60000;
     rcx::run("connect_upgrade_tunnel", vc::mix(A.seed * 223 + A.shard), cases, 100, [&]() -> std::optional<rcx::Fail> {
         Scn s = gen_scn();
         std::string text = scn_text(s); vc::set_current_case(text);
